@@ -227,6 +227,16 @@ Proof.
     destruct va as [v|]; [|simpl; auto]. destruct v; try (simpl; auto; fail).
     pose proof (IHa _ _ g1 R H0) as R2. rel_step R2 vb f2 s2 g2. destruct vb as [l|]; [|simpl; auto].
     rewrite Hcf. destruct (cfi (CClo id oid cap) l g2) as [[o g']|]; simpl; auto.
+  - (* EProp *) intros e IHe fr sf g HE C. cbn [cov_expr] in C. rewrite ieval_prop, seval_prop.
+    pose proof (IHe fr sf g HE C) as R. rel_step R va f1 s1 g1. destruct va as [v|]; [|simpl; auto].
+    destruct (obj_id v); simpl; auto.
+  - (* ESetProp *) intros e IHe w IHw fr sf g HE C. cbn [cov_expr] in C. andb_split. rewrite ieval_setprop, seval_setprop.
+    pose proof (IHw fr sf g HE H) as R. rel_step R va f1 s1 g1. destruct va as [wv|]; [|simpl; auto].
+    pose proof (IHe _ _ g1 R H0) as R2. rel_step R2 vb f2 s2 g2. destruct vb as [v|]; [|simpl; auto].
+    destruct (obj_id v); simpl; auto.
+  - (* EHi *) intros e IHe fr sf g HE C. cbn [cov_expr] in C. rewrite ieval_hi, seval_hi.
+    pose proof (IHe fr sf g HE C) as R. rel_step R va f1 s1 g1. destruct va as [v|]; [|simpl; auto].
+    destruct (obj_id v); simpl; auto.
   - (* EMatch *) intros s0 IHs m IHm fr sf g HE C. cbn [cov_expr] in C. andb_split. rewrite ieval_match, seval_match.
     pose proof (IHs fr sf g HE H) as R. rel_step R va f1 s1 g1. destruct va; [|simpl; auto]. apply IHm; auto.
   - (* ANil *) split; intros; simpl; auto.
@@ -477,6 +487,8 @@ Proof.
     pose proof (IH vs fn s2 f3 sf3 (mark CFin g3) X H0) as R4. rel_step R4 cf f4 sf4 g4.
     destruct cf; simpl; auto.
   - (* SThrow *) rewrite iexec_throw, sexec_throw. pose proof (ev_rel e fr sf g HE C) as R. rel_step R v f1 sf1 g1. destruct v; simpl; auto.
+  - (* SIfInst *) rewrite iexec_ifinst, sexec_ifinst. rewrite (E_rd vs fn x fr sf g HE H).
+    destruct (match rd fn x fr g with VObj _ _ _ => cm T (rd fn x fr g) | _ => false end); apply IH; auto.
 Qed.
 End Step.
 
